@@ -110,6 +110,8 @@ package align
 //@ axiom forall i int, j int {want(i, j)} :: want(i, j)
 //@ spec succ(k int, k2 int) bool
 //@ axiom forall k int, k2 int {succ(k, k2)} :: succ(k, k2)
+//@ spec touch(v int) bool
+//@ axiom forall v int {touch(v)} :: touch(v)
 //@ spec defmark(i int) bool
 //@ axiom forall i int {defmark(i)} :: defmark(i)
 //@ spec rowbase(i int, c int) int
@@ -186,8 +188,8 @@ package align
 //@   loop 7 invariant [dp-cur] forall j2 int {nwOpt(a, alpha, rSeq, qSeq, i, j2)} :: 0 <= j2 && j2 < j - 1 ==> proving(cell(i, j2)) && table[i*c+j2] == nwOpt(a, alpha, rSeq, qSeq, i, j2)
 //@   loop 7 invariant [dp-new] proving(cell(i, j-1)) && table[i*c+j-1] == nwOpt(a, alpha, rSeq, qSeq, i, j-1)
 //@   loop 8 invariant [dp] forall i2 int, j2 int {want(i2, j2)} :: 0 <= i2 && i2 < r && 0 <= j2 && j2 < c ==> proving(want(i2, j2)) && proving(defmark(i2)) && proving(cell(i2, j2)) && table[rowbase(i2, c)+j2] == nwOpt(a, alpha, rSeq, qSeq, i2, j2)
-//@   loop 8 invariant [base] proving(defmark(i)) && rowbase(i, c) == i*c
-//@   loop 8 invariant [wants] want(i, j) && want(i-1, j-1) && want(i-1, j) && want(i, j-1)
+//@   loop 8 invariant [base] proving(defmark(i)) && rowbase(i, c) == i*c && proving(defmark(0)) && rowbase(0, c) == 0
+//@   loop 8 invariant [wants] want(i, j) && want(i-1, j-1) && want(i-1, j) && want(i, j-1) && want(0, j)
 //@   loop 8 isolate
 //@   loop 9 isolate
 //@   loop 8 invariant [seg] score == nwOpt(a, alpha, rSeq, qSeq, maxI, maxJ) - nwOpt(a, alpha, rSeq, qSeq, i, j)
@@ -260,8 +262,8 @@ package align
 //@   loop 7 invariant [dp-cur] forall j2 int {nwOptQ(a, alpha, rSeq, qSeq, i, j2)} :: 0 <= j2 && j2 < j - 1 ==> proving(cell(i, j2)) && table[i*c+j2] == nwOptQ(a, alpha, rSeq, qSeq, i, j2)
 //@   loop 7 invariant [dp-new] proving(cell(i, j-1)) && table[i*c+j-1] == nwOptQ(a, alpha, rSeq, qSeq, i, j-1)
 //@   loop 8 invariant [dp] forall i2 int, j2 int {want(i2, j2)} :: 0 <= i2 && i2 < r && 0 <= j2 && j2 < c ==> proving(want(i2, j2)) && proving(defmark(i2)) && proving(cell(i2, j2)) && table[rowbase(i2, c)+j2] == nwOptQ(a, alpha, rSeq, qSeq, i2, j2)
-//@   loop 8 invariant [base] proving(defmark(i)) && rowbase(i, c) == i*c
-//@   loop 8 invariant [wants] want(i, j) && want(i-1, j-1) && want(i-1, j) && want(i, j-1)
+//@   loop 8 invariant [base] proving(defmark(i)) && rowbase(i, c) == i*c && proving(defmark(0)) && rowbase(0, c) == 0
+//@   loop 8 invariant [wants] want(i, j) && want(i-1, j-1) && want(i-1, j) && want(i, j-1) && want(0, j)
 //@   loop 8 isolate
 //@   loop 9 isolate
 //@   loop 8 invariant [seg] score == nwOptQ(a, alpha, rSeq, qSeq, maxI, maxJ) - nwOptQ(a, alpha, rSeq, qSeq, i, j)
@@ -282,10 +284,17 @@ package align
 //@   property C08
 //@   maypanic
 //@   requires alpha != nil && allocated(idxRef(alpha))
+//@   ensures [pairs] result1 == nil ==> forall k int :: 0 <= k && k < len(result0) ==> wfPair(result0[k], len(rSeq), len(qSeq))
 //@   ensures [illegal-reference] len(qSeq) > 0 && (exists k int :: 0 <= k && k < len(rSeq) && lidx(alpha, rSeq[k]) < 0) ==> result1 != nil
 //@   ensures [illegal-query]     len(rSeq) > 0 && (exists k int :: 0 <= k && k < len(qSeq) && lidx(alpha, qSeq[k]) < 0) ==> result1 != nil
 //@   ensures [undersized]        len(a) < alphaLen(alpha) ==> result1 != nil
 //@   ensures [ragged]            (exists k int :: 0 <= k && k < len(a) && len(a[k]) != len(a)) ==> result1 != nil
+//@   ensures [objects] result1 == nil ==> forall k int {result0[k]} :: 0 <= k && k < len(result0) ==> result0[k].(*featPair) != nil
+//@   ensures [scores] result1 == nil ==> forall k int {result0[k]} :: 0 <= k && k < len(result0) ==> result0[k].(*featPair).score == swOpt(a, alpha, rSeq, qSeq, result0[k].(*featPair).a.end, result0[k].(*featPair).b.end) - swOpt(a, alpha, rSeq, qSeq, result0[k].(*featPair).a.start, result0[k].(*featPair).b.start)
+//@   ensures [chain] result1 == nil ==> forall k int, k2 int {succ(k, k2)} :: 0 <= k && k2 == k + 1 && k2 < len(result0) ==> proving(succ(k, k2)) && result0[k].(*featPair).a.end == result0[k2].(*featPair).a.start && result0[k].(*featPair).b.end == result0[k2].(*featPair).b.start
+//@   ensures [nonempty] result1 == nil ==> len(result0) > 0
+//@   ensures [zero] result1 == nil ==> swOpt(a, alpha, rSeq, qSeq, result0[0].(*featPair).a.start, result0[0].(*featPair).b.start) == 0
+//@   ensures [best] result1 == nil && (forall x int {old(a[x][0])} :: 0 <= x && x < len(a) ==> old(a[x][0]) <= 0) && (forall x int {old(a[0][x])} :: 0 <= x && x < len(a) ==> old(a[0][x]) <= 0) ==> forall i2 int, j2 int {swOpt(a, alpha, rSeq, qSeq, i2, j2)} :: 0 <= i2 && i2 <= len(rSeq) && 0 <= j2 && j2 <= len(qSeq) ==> swOpt(a, alpha, rSeq, qSeq, i2, j2) <= swOpt(a, alpha, rSeq, qSeq, result0[len(result0)-1].(*featPair).a.end, result0[len(result0)-1].(*featPair).b.end)
 //@   loop 1 invariant 0 <= idx && idx <= len(a) && let == len(a) && let >= alphaLen(alpha) && len(la) == idx * let && cap(la) >= let * let && fresh(la) && forall k int :: 0 <= k && k < idx ==> len(a[k]) == let
 //@   loop 2 invariant 1 <= i && i <= r && 0 <= maxI && maxI < r && 0 <= maxJ && maxJ < c && ref(index) == idxRef(alpha) && let == len(a) && let >= alphaLen(alpha) && len(la) == let * let && index != nil && (forall b int :: 0 <= b && b < 256 ==> index[b] == lidx(alpha, b)) && (forall k int :: 0 <= k && k < len(a) ==> len(a[k]) == let) && r == len(rSeq) + 1 && c == len(qSeq) + 1 && len(table) == r * c && fresh(table)
 //@   loop 2 invariant [valid] (c > 1 ==> forall k int :: 0 <= k && k < i - 1 ==> lidx(alpha, rSeq[k]) >= 0) && (i > 1 && c > 1 ==> (forall k int :: 0 <= k && k < len(qSeq) ==> lidx(alpha, qSeq[k]) >= 0))
@@ -317,17 +326,50 @@ package align
 //@   loop 3 invariant [dp-prev] forall j2 int {swOpt(a, alpha, rSeq, qSeq, i-1, j2)} :: 0 <= j2 && j2 < c ==> proving(cell(i-1, j2)) && table[(i-1)*c+j2] == swOpt(a, alpha, rSeq, qSeq, i-1, j2)
 //@   loop 3 invariant [dp-cur] forall j2 int {swOpt(a, alpha, rSeq, qSeq, i, j2)} :: 0 <= j2 && j2 < j - 1 ==> proving(cell(i, j2)) && table[i*c+j2] == swOpt(a, alpha, rSeq, qSeq, i, j2)
 //@   loop 3 invariant [dp-new] proving(cell(i, j-1)) && table[i*c+j-1] == swOpt(a, alpha, rSeq, qSeq, i, j-1)
-//@   loop 4 invariant [dp] forall i2 int, j2 int {swOpt(a, alpha, rSeq, qSeq, i2, j2)} :: 0 <= i2 && i2 < r && 0 <= j2 && j2 < c ==> proving(cell(i2, j2)) && table[i2*c+j2] == swOpt(a, alpha, rSeq, qSeq, i2, j2)
+//@   loop 4 invariant [dp] forall i2 int, j2 int {want(i2, j2)} :: 0 <= i2 && i2 < r && 0 <= j2 && j2 < c ==> proving(want(i2, j2)) && proving(defmark(i2)) && proving(cell(i2, j2)) && table[rowbase(i2, c)+j2] == swOpt(a, alpha, rSeq, qSeq, i2, j2)
+//@   loop 4 invariant [base] proving(defmark(i)) && rowbase(i, c) == i*c && proving(defmark(0)) && rowbase(0, c) == 0
+//@   loop 4 invariant [wants] want(i, j) && want(i-1, j-1) && want(i-1, j) && want(i, j-1) && want(0, j)
+//@   loop 4 isolate
+//@   loop 5 isolate
+//@   loop 4 invariant [seg] score == swOpt(a, alpha, rSeq, qSeq, maxI, maxJ) - swOpt(a, alpha, rSeq, qSeq, i, j)
+//@   loop 4 invariant [alloc] forall k int {aln[k]} :: 0 <= k && k < len(aln) ==> allocated(aln[k].(*featPair)) && aln[k].(*featPair) != nil
+//@   loop 5 invariant [alloc] forall k int {aln[k]} :: 0 <= k && k < len(aln) ==> aln[k].(*featPair) != nil
+//@   loop 4 invariant [scores] forall k int {aln[k]} :: 0 <= k && k < len(aln) ==> aln[k].(*featPair).score == swOpt(a, alpha, rSeq, qSeq, aln[k].(*featPair).a.end, aln[k].(*featPair).b.end) - swOpt(a, alpha, rSeq, qSeq, aln[k].(*featPair).a.start, aln[k].(*featPair).b.start)
+//@   loop 4 invariant [chain] forall k int, k2 int {succ(k, k2)} :: 0 <= k && k2 == k + 1 && k2 < len(aln) ==> proving(succ(k, k2)) && aln[k2].(*featPair).a.end == aln[k].(*featPair).a.start && aln[k2].(*featPair).b.end == aln[k].(*featPair).b.start
+//@   loop 4 invariant [tail] forall k int {aln[k]} :: 0 <= k && k == len(aln) - 1 ==> aln[k].(*featPair).a.start == maxI && aln[k].(*featPair).b.start == maxJ
+//@   loop 4 invariant [origin] proving(cell(0, 0)) && swOpt(a, alpha, rSeq, qSeq, 0, 0) == 0
+//@   loop 5 invariant [scores] forall k int {aln[k]} :: 0 <= k && k < len(aln) ==> aln[k].(*featPair).score == swOpt(a, alpha, rSeq, qSeq, aln[k].(*featPair).a.end, aln[k].(*featPair).b.end) - swOpt(a, alpha, rSeq, qSeq, aln[k].(*featPair).a.start, aln[k].(*featPair).b.start)
+//@   loop 5 invariant [chain-done] forall k int, k2 int {succ(k, k2)} :: 0 <= k && k2 == k + 1 && k2 < len(aln) && (k2 < i || k > j) ==> proving(succ(k, k2)) && aln[k].(*featPair).a.end == aln[k2].(*featPair).a.start && aln[k].(*featPair).b.end == aln[k2].(*featPair).b.start
+//@   loop 5 invariant [chain-todo] forall k int, k2 int {succ(k, k2)} :: i <= k && k2 == k + 1 && k2 <= j ==> proving(succ(k, k2)) && aln[k2].(*featPair).a.end == aln[k].(*featPair).a.start && aln[k2].(*featPair).b.end == aln[k].(*featPair).b.start
+//@   loop 5 invariant [chain-joint] i > 0 && i <= j ==> proving(succ(i-1, i)) && proving(succ(j, j+1)) && aln[i-1].(*featPair).a.end == aln[j].(*featPair).a.start && aln[i-1].(*featPair).b.end == aln[j].(*featPair).b.start && aln[i].(*featPair).a.end == aln[j+1].(*featPair).a.start && aln[i].(*featPair).b.end == aln[j+1].(*featPair).b.start
+//@   loop 5 invariant [chain-met] i > 0 && i == j + 1 ==> proving(succ(i-1, i)) && proving(succ(j, j+1)) && aln[j].(*featPair).a.end == aln[i].(*featPair).a.start && aln[j].(*featPair).b.end == aln[i].(*featPair).b.start
+//@   loop 2 invariant [bestv] maxS >= 0 && proving(cell(maxI, maxJ)) && maxS == swOpt(a, alpha, rSeq, qSeq, maxI, maxJ)
+//@   loop 3 invariant [bestv] maxS >= 0 && proving(cell(maxI, maxJ)) && maxS == swOpt(a, alpha, rSeq, qSeq, maxI, maxJ)
+//@   loop 2 invariant [best] (forall b int {lidx(alpha, b)} :: lidx(alpha, b) >= 0 ==> old(a[lidx(alpha, b)][0]) <= 0 && old(a[0][lidx(alpha, b)]) <= 0) ==> forall i2 int, j2 int {swOpt(a, alpha, rSeq, qSeq, i2, j2)} :: 0 <= i2 && i2 < r && 0 <= j2 && j2 < c && (i2 < i || j2 == 0) ==> proving(cell(i2, j2)) && swOpt(a, alpha, rSeq, qSeq, i2, j2) <= maxS
+//@   loop 3 invariant [best] (forall b int {lidx(alpha, b)} :: lidx(alpha, b) >= 0 ==> old(a[lidx(alpha, b)][0]) <= 0 && old(a[0][lidx(alpha, b)]) <= 0) ==> forall i2 int, j2 int {swOpt(a, alpha, rSeq, qSeq, i2, j2)} :: 0 <= i2 && i2 < r && 0 <= j2 && j2 < c && (i2 < i || j2 == 0 || (i2 == i && j2 < j - 1)) ==> proving(cell(i2, j2)) && swOpt(a, alpha, rSeq, qSeq, i2, j2) <= maxS
+//@   loop 3 invariant [newbest] (forall b int {lidx(alpha, b)} :: lidx(alpha, b) >= 0 ==> old(a[lidx(alpha, b)][0]) <= 0 && old(a[0][lidx(alpha, b)]) <= 0) ==> proving(touch(swOpt(a, alpha, rSeq, qSeq, i, j-1))) && proving(cell(i, j-1)) && table[i*c+j-1] <= maxS
+//@   loop 4 invariant [best] (forall b int {lidx(alpha, b)} :: lidx(alpha, b) >= 0 ==> old(a[lidx(alpha, b)][0]) <= 0 && old(a[0][lidx(alpha, b)]) <= 0) ==> forall i2 int, j2 int {swOpt(a, alpha, rSeq, qSeq, i2, j2)} :: 0 <= i2 && i2 < r && 0 <= j2 && j2 < c ==> swOpt(a, alpha, rSeq, qSeq, i2, j2) <= maxS
+//@   loop 4 invariant [bestcell] (len(aln) == 0 ==> swOpt(a, alpha, rSeq, qSeq, maxI, maxJ) == maxS) && (forall k int {aln[k]} :: k == 0 && k < len(aln) ==> swOpt(a, alpha, rSeq, qSeq, aln[k].(*featPair).a.end, aln[k].(*featPair).b.end) == maxS)
+//@   loop 4 invariant [here] cell(i, j)
+//@   loop 5 invariant [best] (forall b int {lidx(alpha, b)} :: lidx(alpha, b) >= 0 ==> old(a[lidx(alpha, b)][0]) <= 0 && old(a[0][lidx(alpha, b)]) <= 0) ==> forall i2 int, j2 int {swOpt(a, alpha, rSeq, qSeq, i2, j2)} :: 0 <= i2 && i2 < r && 0 <= j2 && j2 < c ==> swOpt(a, alpha, rSeq, qSeq, i2, j2) <= maxS
+//@   loop 5 invariant [ends] len(aln) > 0 && (i == 0 ==> swOpt(a, alpha, rSeq, qSeq, aln[0].(*featPair).a.end, aln[0].(*featPair).b.end) == maxS && swOpt(a, alpha, rSeq, qSeq, aln[len(aln)-1].(*featPair).a.start, aln[len(aln)-1].(*featPair).b.start) == 0) && (i > 0 ==> swOpt(a, alpha, rSeq, qSeq, aln[len(aln)-1].(*featPair).a.end, aln[len(aln)-1].(*featPair).b.end) == maxS && swOpt(a, alpha, rSeq, qSeq, aln[0].(*featPair).a.start, aln[0].(*featPair).b.start) == 0)
 
 //@ func (SW).alignQLetters
 //@   property C09
 //@   property C08
 //@   maypanic
 //@   requires alpha != nil && allocated(idxRef(alpha))
+//@   ensures [pairs] result1 == nil ==> forall k int :: 0 <= k && k < len(result0) ==> wfPair(result0[k], len(rSeq), len(qSeq))
 //@   ensures [illegal-reference] len(qSeq) > 0 && (exists k int :: 0 <= k && k < len(rSeq) && lidx(alpha, rSeq[k].L) < 0) ==> result1 != nil
 //@   ensures [illegal-query]     len(rSeq) > 0 && (exists k int :: 0 <= k && k < len(qSeq) && lidx(alpha, qSeq[k].L) < 0) ==> result1 != nil
 //@   ensures [undersized]        len(a) < alphaLen(alpha) ==> result1 != nil
 //@   ensures [ragged]            (exists k int :: 0 <= k && k < len(a) && len(a[k]) != len(a)) ==> result1 != nil
+//@   ensures [objects] result1 == nil ==> forall k int {result0[k]} :: 0 <= k && k < len(result0) ==> result0[k].(*featPair) != nil
+//@   ensures [scores] result1 == nil ==> forall k int {result0[k]} :: 0 <= k && k < len(result0) ==> result0[k].(*featPair).score == swOptQ(a, alpha, rSeq, qSeq, result0[k].(*featPair).a.end, result0[k].(*featPair).b.end) - swOptQ(a, alpha, rSeq, qSeq, result0[k].(*featPair).a.start, result0[k].(*featPair).b.start)
+//@   ensures [chain] result1 == nil ==> forall k int, k2 int {succ(k, k2)} :: 0 <= k && k2 == k + 1 && k2 < len(result0) ==> proving(succ(k, k2)) && result0[k].(*featPair).a.end == result0[k2].(*featPair).a.start && result0[k].(*featPair).b.end == result0[k2].(*featPair).b.start
+//@   ensures [nonempty] result1 == nil ==> len(result0) > 0
+//@   ensures [zero] result1 == nil ==> swOptQ(a, alpha, rSeq, qSeq, result0[0].(*featPair).a.start, result0[0].(*featPair).b.start) == 0
+//@   ensures [best] result1 == nil && (forall x int {old(a[x][0])} :: 0 <= x && x < len(a) ==> old(a[x][0]) <= 0) && (forall x int {old(a[0][x])} :: 0 <= x && x < len(a) ==> old(a[0][x]) <= 0) ==> forall i2 int, j2 int {swOptQ(a, alpha, rSeq, qSeq, i2, j2)} :: 0 <= i2 && i2 <= len(rSeq) && 0 <= j2 && j2 <= len(qSeq) ==> swOptQ(a, alpha, rSeq, qSeq, i2, j2) <= swOptQ(a, alpha, rSeq, qSeq, result0[len(result0)-1].(*featPair).a.end, result0[len(result0)-1].(*featPair).b.end)
 //@   loop 1 invariant 0 <= idx && idx <= len(a) && let == len(a) && let >= alphaLen(alpha) && len(la) == idx * let && cap(la) >= let * let && fresh(la) && forall k int :: 0 <= k && k < idx ==> len(a[k]) == let
 //@   loop 2 invariant 1 <= i && i <= r && 0 <= maxI && maxI < r && 0 <= maxJ && maxJ < c && ref(index) == idxRef(alpha) && let == len(a) && let >= alphaLen(alpha) && len(la) == let * let && index != nil && (forall b int :: 0 <= b && b < 256 ==> index[b] == lidx(alpha, b)) && (forall k int :: 0 <= k && k < len(a) ==> len(a[k]) == let) && r == len(rSeq) + 1 && c == len(qSeq) + 1 && len(table) == r * c && fresh(table)
 //@   loop 2 invariant [valid] (c > 1 ==> forall k int :: 0 <= k && k < i - 1 ==> lidx(alpha, rSeq[k].L) >= 0) && (i > 1 && c > 1 ==> (forall k int :: 0 <= k && k < len(qSeq) ==> lidx(alpha, qSeq[k].L) >= 0))
@@ -359,7 +401,33 @@ package align
 //@   loop 3 invariant [dp-prev] forall j2 int {swOptQ(a, alpha, rSeq, qSeq, i-1, j2)} :: 0 <= j2 && j2 < c ==> proving(cell(i-1, j2)) && table[(i-1)*c+j2] == swOptQ(a, alpha, rSeq, qSeq, i-1, j2)
 //@   loop 3 invariant [dp-cur] forall j2 int {swOptQ(a, alpha, rSeq, qSeq, i, j2)} :: 0 <= j2 && j2 < j - 1 ==> proving(cell(i, j2)) && table[i*c+j2] == swOptQ(a, alpha, rSeq, qSeq, i, j2)
 //@   loop 3 invariant [dp-new] proving(cell(i, j-1)) && table[i*c+j-1] == swOptQ(a, alpha, rSeq, qSeq, i, j-1)
-//@   loop 4 invariant [dp] forall i2 int, j2 int {swOptQ(a, alpha, rSeq, qSeq, i2, j2)} :: 0 <= i2 && i2 < r && 0 <= j2 && j2 < c ==> proving(cell(i2, j2)) && table[i2*c+j2] == swOptQ(a, alpha, rSeq, qSeq, i2, j2)
+//@   loop 4 invariant [dp] forall i2 int, j2 int {want(i2, j2)} :: 0 <= i2 && i2 < r && 0 <= j2 && j2 < c ==> proving(want(i2, j2)) && proving(defmark(i2)) && proving(cell(i2, j2)) && table[rowbase(i2, c)+j2] == swOptQ(a, alpha, rSeq, qSeq, i2, j2)
+//@   loop 4 invariant [base] proving(defmark(i)) && rowbase(i, c) == i*c && proving(defmark(0)) && rowbase(0, c) == 0
+//@   loop 4 invariant [wants] want(i, j) && want(i-1, j-1) && want(i-1, j) && want(i, j-1) && want(0, j)
+//@   loop 4 isolate
+//@   loop 5 isolate
+//@   loop 4 invariant [seg] score == swOptQ(a, alpha, rSeq, qSeq, maxI, maxJ) - swOptQ(a, alpha, rSeq, qSeq, i, j)
+//@   loop 4 invariant [alloc] forall k int {aln[k]} :: 0 <= k && k < len(aln) ==> allocated(aln[k].(*featPair)) && aln[k].(*featPair) != nil
+//@   loop 5 invariant [alloc] forall k int {aln[k]} :: 0 <= k && k < len(aln) ==> aln[k].(*featPair) != nil
+//@   loop 4 invariant [scores] forall k int {aln[k]} :: 0 <= k && k < len(aln) ==> aln[k].(*featPair).score == swOptQ(a, alpha, rSeq, qSeq, aln[k].(*featPair).a.end, aln[k].(*featPair).b.end) - swOptQ(a, alpha, rSeq, qSeq, aln[k].(*featPair).a.start, aln[k].(*featPair).b.start)
+//@   loop 4 invariant [chain] forall k int, k2 int {succ(k, k2)} :: 0 <= k && k2 == k + 1 && k2 < len(aln) ==> proving(succ(k, k2)) && aln[k2].(*featPair).a.end == aln[k].(*featPair).a.start && aln[k2].(*featPair).b.end == aln[k].(*featPair).b.start
+//@   loop 4 invariant [tail] forall k int {aln[k]} :: 0 <= k && k == len(aln) - 1 ==> aln[k].(*featPair).a.start == maxI && aln[k].(*featPair).b.start == maxJ
+//@   loop 4 invariant [origin] proving(cell(0, 0)) && swOptQ(a, alpha, rSeq, qSeq, 0, 0) == 0
+//@   loop 5 invariant [scores] forall k int {aln[k]} :: 0 <= k && k < len(aln) ==> aln[k].(*featPair).score == swOptQ(a, alpha, rSeq, qSeq, aln[k].(*featPair).a.end, aln[k].(*featPair).b.end) - swOptQ(a, alpha, rSeq, qSeq, aln[k].(*featPair).a.start, aln[k].(*featPair).b.start)
+//@   loop 5 invariant [chain-done] forall k int, k2 int {succ(k, k2)} :: 0 <= k && k2 == k + 1 && k2 < len(aln) && (k2 < i || k > j) ==> proving(succ(k, k2)) && aln[k].(*featPair).a.end == aln[k2].(*featPair).a.start && aln[k].(*featPair).b.end == aln[k2].(*featPair).b.start
+//@   loop 5 invariant [chain-todo] forall k int, k2 int {succ(k, k2)} :: i <= k && k2 == k + 1 && k2 <= j ==> proving(succ(k, k2)) && aln[k2].(*featPair).a.end == aln[k].(*featPair).a.start && aln[k2].(*featPair).b.end == aln[k].(*featPair).b.start
+//@   loop 5 invariant [chain-joint] i > 0 && i <= j ==> proving(succ(i-1, i)) && proving(succ(j, j+1)) && aln[i-1].(*featPair).a.end == aln[j].(*featPair).a.start && aln[i-1].(*featPair).b.end == aln[j].(*featPair).b.start && aln[i].(*featPair).a.end == aln[j+1].(*featPair).a.start && aln[i].(*featPair).b.end == aln[j+1].(*featPair).b.start
+//@   loop 5 invariant [chain-met] i > 0 && i == j + 1 ==> proving(succ(i-1, i)) && proving(succ(j, j+1)) && aln[j].(*featPair).a.end == aln[i].(*featPair).a.start && aln[j].(*featPair).b.end == aln[i].(*featPair).b.start
+//@   loop 2 invariant [bestv] maxS >= 0 && proving(cell(maxI, maxJ)) && maxS == swOptQ(a, alpha, rSeq, qSeq, maxI, maxJ)
+//@   loop 3 invariant [bestv] maxS >= 0 && proving(cell(maxI, maxJ)) && maxS == swOptQ(a, alpha, rSeq, qSeq, maxI, maxJ)
+//@   loop 2 invariant [best] (forall b int {lidx(alpha, b)} :: lidx(alpha, b) >= 0 ==> old(a[lidx(alpha, b)][0]) <= 0 && old(a[0][lidx(alpha, b)]) <= 0) ==> forall i2 int, j2 int {swOptQ(a, alpha, rSeq, qSeq, i2, j2)} :: 0 <= i2 && i2 < r && 0 <= j2 && j2 < c && (i2 < i || j2 == 0) ==> proving(cell(i2, j2)) && swOptQ(a, alpha, rSeq, qSeq, i2, j2) <= maxS
+//@   loop 3 invariant [best] (forall b int {lidx(alpha, b)} :: lidx(alpha, b) >= 0 ==> old(a[lidx(alpha, b)][0]) <= 0 && old(a[0][lidx(alpha, b)]) <= 0) ==> forall i2 int, j2 int {swOptQ(a, alpha, rSeq, qSeq, i2, j2)} :: 0 <= i2 && i2 < r && 0 <= j2 && j2 < c && (i2 < i || j2 == 0 || (i2 == i && j2 < j - 1)) ==> proving(cell(i2, j2)) && swOptQ(a, alpha, rSeq, qSeq, i2, j2) <= maxS
+//@   loop 3 invariant [newbest] (forall b int {lidx(alpha, b)} :: lidx(alpha, b) >= 0 ==> old(a[lidx(alpha, b)][0]) <= 0 && old(a[0][lidx(alpha, b)]) <= 0) ==> proving(touch(swOptQ(a, alpha, rSeq, qSeq, i, j-1))) && proving(cell(i, j-1)) && table[i*c+j-1] <= maxS
+//@   loop 4 invariant [best] (forall b int {lidx(alpha, b)} :: lidx(alpha, b) >= 0 ==> old(a[lidx(alpha, b)][0]) <= 0 && old(a[0][lidx(alpha, b)]) <= 0) ==> forall i2 int, j2 int {swOptQ(a, alpha, rSeq, qSeq, i2, j2)} :: 0 <= i2 && i2 < r && 0 <= j2 && j2 < c ==> swOptQ(a, alpha, rSeq, qSeq, i2, j2) <= maxS
+//@   loop 4 invariant [bestcell] (len(aln) == 0 ==> swOptQ(a, alpha, rSeq, qSeq, maxI, maxJ) == maxS) && (forall k int {aln[k]} :: k == 0 && k < len(aln) ==> swOptQ(a, alpha, rSeq, qSeq, aln[k].(*featPair).a.end, aln[k].(*featPair).b.end) == maxS)
+//@   loop 4 invariant [here] cell(i, j)
+//@   loop 5 invariant [best] (forall b int {lidx(alpha, b)} :: lidx(alpha, b) >= 0 ==> old(a[lidx(alpha, b)][0]) <= 0 && old(a[0][lidx(alpha, b)]) <= 0) ==> forall i2 int, j2 int {swOptQ(a, alpha, rSeq, qSeq, i2, j2)} :: 0 <= i2 && i2 < r && 0 <= j2 && j2 < c ==> swOptQ(a, alpha, rSeq, qSeq, i2, j2) <= maxS
+//@   loop 5 invariant [ends] len(aln) > 0 && (i == 0 ==> swOptQ(a, alpha, rSeq, qSeq, aln[0].(*featPair).a.end, aln[0].(*featPair).b.end) == maxS && swOptQ(a, alpha, rSeq, qSeq, aln[len(aln)-1].(*featPair).a.start, aln[len(aln)-1].(*featPair).b.start) == 0) && (i > 0 ==> swOptQ(a, alpha, rSeq, qSeq, aln[len(aln)-1].(*featPair).a.end, aln[len(aln)-1].(*featPair).b.end) == maxS && swOptQ(a, alpha, rSeq, qSeq, aln[0].(*featPair).a.start, aln[0].(*featPair).b.start) == 0)
 
 //@ func (Fitted).alignLetters
 //@   property C09
@@ -371,6 +439,12 @@ package align
 //@   ensures [illegal-query]     (exists k int :: 0 <= k && k < len(qSeq) && lidx(alpha, qSeq[k]) < 0) ==> result1 != nil
 //@   ensures [undersized]        len(a) < alphaLen(alpha) ==> result1 != nil
 //@   ensures [ragged]            (exists k int :: 0 <= k && k < len(a) && len(a[k]) != len(a)) ==> result1 != nil
+//@   ensures [objects] result1 == nil ==> forall k int {result0[k]} :: 0 <= k && k < len(result0) ==> result0[k].(*featPair) != nil
+//@   ensures [scores] result1 == nil ==> forall k int {result0[k]} :: 0 <= k && k < len(result0) ==> result0[k].(*featPair).score == fitOpt(a, alpha, rSeq, qSeq, result0[k].(*featPair).a.end, result0[k].(*featPair).b.end) - fitOpt(a, alpha, rSeq, qSeq, result0[k].(*featPair).a.start, result0[k].(*featPair).b.start)
+//@   ensures [chain] result1 == nil ==> forall k int, k2 int {succ(k, k2)} :: 0 <= k && k2 == k + 1 && k2 < len(result0) ==> proving(succ(k, k2)) && result0[k].(*featPair).a.end == result0[k2].(*featPair).a.start && result0[k].(*featPair).b.end == result0[k2].(*featPair).b.start
+//@   ensures [nonempty] result1 == nil ==> len(result0) > 0
+//@   ensures [zero] result1 == nil ==> fitOpt(a, alpha, rSeq, qSeq, result0[0].(*featPair).a.start, result0[0].(*featPair).b.start) == 0
+//@   ensures [qend] result1 == nil ==> result0[len(result0)-1].(*featPair).b.end == len(qSeq)
 //@   loop 1 invariant 0 <= idx && idx <= len(a) && let == len(a) && let >= alphaLen(alpha) && len(la) == idx * let && cap(la) >= let * let && fresh(la) && forall k int :: 0 <= k && k < idx ==> len(a[k]) == let
 //@   loop 2 invariant 0 <= idx && idx <= len(rSeq) && ref(index) == idxRef(alpha) && let == len(a) && let >= alphaLen(alpha) && len(la) == let * let && index != nil && (forall b int :: 0 <= b && b < 256 ==> index[b] == lidx(alpha, b)) && (forall k int :: 0 <= k && k < len(a) ==> len(a[k]) == let) && forall k int :: 0 <= k && k < idx ==> lidx(alpha, rSeq[k]) >= 0
 //@   loop 3 invariant 0 <= idx && idx <= len(qSeq) && ref(index) == idxRef(alpha) && let == len(a) && let >= alphaLen(alpha) && len(la) == let * let && index != nil && (forall b int :: 0 <= b && b < 256 ==> index[b] == lidx(alpha, b)) && (forall k int :: 0 <= k && k < len(a) ==> len(a[k]) == let) && (forall k int :: 0 <= k && k < len(rSeq) ==> lidx(alpha, rSeq[k]) >= 0) && forall k int :: 0 <= k && k < idx ==> lidx(alpha, qSeq[k]) >= 0
@@ -414,7 +488,26 @@ package align
 //@   loop 6 invariant [dp-new] proving(cell(i, j-1)) && table[i*c+j-1] == fitOpt(a, alpha, rSeq, qSeq, i, j-1)
 //@   loop 7 invariant [dp] forall i2 int, j2 int {fitOpt(a, alpha, rSeq, qSeq, i2, j2)} :: 0 <= i2 && i2 < r && 0 <= j2 && j2 < c ==> proving(cell(i2, j2)) && table[i2*c+j2] == fitOpt(a, alpha, rSeq, qSeq, i2, j2)
 //@   loop 8 invariant [dp] forall i2 int, j2 int {fitOpt(a, alpha, rSeq, qSeq, i2, j2)} :: 0 <= i2 && i2 < r && 0 <= j2 && j2 < c ==> proving(cell(i2, j2)) && table[i2*c+j2] == fitOpt(a, alpha, rSeq, qSeq, i2, j2)
-//@   loop 9 invariant [dp] forall i2 int, j2 int {fitOpt(a, alpha, rSeq, qSeq, i2, j2)} :: 0 <= i2 && i2 < r && 0 <= j2 && j2 < c ==> proving(cell(i2, j2)) && table[i2*c+j2] == fitOpt(a, alpha, rSeq, qSeq, i2, j2)
+//@   loop 9 invariant [dp] forall i2 int, j2 int {want(i2, j2)} :: 0 <= i2 && i2 < r && 0 <= j2 && j2 < c ==> proving(want(i2, j2)) && proving(defmark(i2)) && proving(cell(i2, j2)) && table[rowbase(i2, c)+j2] == fitOpt(a, alpha, rSeq, qSeq, i2, j2)
+//@   loop 9 invariant [base] proving(defmark(i)) && rowbase(i, c) == i*c && proving(defmark(0)) && rowbase(0, c) == 0
+//@   loop 9 invariant [wants] want(i, j) && want(i-1, j-1) && want(i-1, j) && want(i, j-1) && want(0, j)
+//@   loop 9 isolate
+//@   loop 10 isolate
+//@   loop 9 invariant [seg] score == fitOpt(a, alpha, rSeq, qSeq, maxI, maxJ) - fitOpt(a, alpha, rSeq, qSeq, i, j)
+//@   loop 9 invariant [alloc] forall k int {aln[k]} :: 0 <= k && k < len(aln) ==> allocated(aln[k].(*featPair)) && aln[k].(*featPair) != nil
+//@   loop 10 invariant [alloc] forall k int {aln[k]} :: 0 <= k && k < len(aln) ==> aln[k].(*featPair) != nil
+//@   loop 9 invariant [scores] forall k int {aln[k]} :: 0 <= k && k < len(aln) ==> aln[k].(*featPair).score == fitOpt(a, alpha, rSeq, qSeq, aln[k].(*featPair).a.end, aln[k].(*featPair).b.end) - fitOpt(a, alpha, rSeq, qSeq, aln[k].(*featPair).a.start, aln[k].(*featPair).b.start)
+//@   loop 9 invariant [chain] forall k int, k2 int {succ(k, k2)} :: 0 <= k && k2 == k + 1 && k2 < len(aln) ==> proving(succ(k, k2)) && aln[k2].(*featPair).a.end == aln[k].(*featPair).a.start && aln[k2].(*featPair).b.end == aln[k].(*featPair).b.start
+//@   loop 9 invariant [tail] forall k int {aln[k]} :: 0 <= k && k == len(aln) - 1 ==> aln[k].(*featPair).a.start == maxI && aln[k].(*featPair).b.start == maxJ
+//@   loop 9 invariant [origin] proving(cell(0, 0)) && fitOpt(a, alpha, rSeq, qSeq, 0, 0) == 0
+//@   loop 10 invariant [scores] forall k int {aln[k]} :: 0 <= k && k < len(aln) ==> aln[k].(*featPair).score == fitOpt(a, alpha, rSeq, qSeq, aln[k].(*featPair).a.end, aln[k].(*featPair).b.end) - fitOpt(a, alpha, rSeq, qSeq, aln[k].(*featPair).a.start, aln[k].(*featPair).b.start)
+//@   loop 10 invariant [chain-done] forall k int, k2 int {succ(k, k2)} :: 0 <= k && k2 == k + 1 && k2 < len(aln) && (k2 < i || k > j) ==> proving(succ(k, k2)) && aln[k].(*featPair).a.end == aln[k2].(*featPair).a.start && aln[k].(*featPair).b.end == aln[k2].(*featPair).b.start
+//@   loop 10 invariant [chain-todo] forall k int, k2 int {succ(k, k2)} :: i <= k && k2 == k + 1 && k2 <= j ==> proving(succ(k, k2)) && aln[k2].(*featPair).a.end == aln[k].(*featPair).a.start && aln[k2].(*featPair).b.end == aln[k].(*featPair).b.start
+//@   loop 10 invariant [chain-joint] i > 0 && i <= j ==> proving(succ(i-1, i)) && proving(succ(j, j+1)) && aln[i-1].(*featPair).a.end == aln[j].(*featPair).a.start && aln[i-1].(*featPair).b.end == aln[j].(*featPair).b.start && aln[i].(*featPair).a.end == aln[j+1].(*featPair).a.start && aln[i].(*featPair).b.end == aln[j+1].(*featPair).b.start
+//@   loop 10 invariant [chain-met] i > 0 && i == j + 1 ==> proving(succ(i-1, i)) && proving(succ(j, j+1)) && aln[j].(*featPair).a.end == aln[i].(*featPair).a.start && aln[j].(*featPair).b.end == aln[i].(*featPair).b.start
+//@   loop 9 invariant [here] cell(i, j)
+//@   loop 9 invariant [qend] (len(aln) == 0 ==> maxJ == c - 1) && (forall k int {aln[k]} :: k == 0 && k < len(aln) ==> aln[k].(*featPair).b.end == c - 1)
+//@   loop 10 invariant [ends] len(aln) > 0 && (i == 0 ==> aln[0].(*featPair).b.end == len(qSeq) && fitOpt(a, alpha, rSeq, qSeq, aln[len(aln)-1].(*featPair).a.start, aln[len(aln)-1].(*featPair).b.start) == 0) && (i > 0 ==> aln[len(aln)-1].(*featPair).b.end == len(qSeq) && fitOpt(a, alpha, rSeq, qSeq, aln[0].(*featPair).a.start, aln[0].(*featPair).b.start) == 0)
 
 //@ func (Fitted).alignQLetters
 //@   property C09
@@ -426,6 +519,12 @@ package align
 //@   ensures [illegal-query]     (exists k int :: 0 <= k && k < len(qSeq) && lidx(alpha, qSeq[k].L) < 0) ==> result1 != nil
 //@   ensures [undersized]        len(a) < alphaLen(alpha) ==> result1 != nil
 //@   ensures [ragged]            (exists k int :: 0 <= k && k < len(a) && len(a[k]) != len(a)) ==> result1 != nil
+//@   ensures [objects] result1 == nil ==> forall k int {result0[k]} :: 0 <= k && k < len(result0) ==> result0[k].(*featPair) != nil
+//@   ensures [scores] result1 == nil ==> forall k int {result0[k]} :: 0 <= k && k < len(result0) ==> result0[k].(*featPair).score == fitOptQ(a, alpha, rSeq, qSeq, result0[k].(*featPair).a.end, result0[k].(*featPair).b.end) - fitOptQ(a, alpha, rSeq, qSeq, result0[k].(*featPair).a.start, result0[k].(*featPair).b.start)
+//@   ensures [chain] result1 == nil ==> forall k int, k2 int {succ(k, k2)} :: 0 <= k && k2 == k + 1 && k2 < len(result0) ==> proving(succ(k, k2)) && result0[k].(*featPair).a.end == result0[k2].(*featPair).a.start && result0[k].(*featPair).b.end == result0[k2].(*featPair).b.start
+//@   ensures [nonempty] result1 == nil ==> len(result0) > 0
+//@   ensures [zero] result1 == nil ==> fitOptQ(a, alpha, rSeq, qSeq, result0[0].(*featPair).a.start, result0[0].(*featPair).b.start) == 0
+//@   ensures [qend] result1 == nil ==> result0[len(result0)-1].(*featPair).b.end == len(qSeq)
 //@   loop 1 invariant 0 <= idx && idx <= len(a) && let == len(a) && let >= alphaLen(alpha) && len(la) == idx * let && cap(la) >= let * let && fresh(la) && forall k int :: 0 <= k && k < idx ==> len(a[k]) == let
 //@   loop 2 invariant 0 <= idx && idx <= len(rSeq) && ref(index) == idxRef(alpha) && let == len(a) && let >= alphaLen(alpha) && len(la) == let * let && index != nil && (forall b int :: 0 <= b && b < 256 ==> index[b] == lidx(alpha, b)) && (forall k int :: 0 <= k && k < len(a) ==> len(a[k]) == let) && forall k int :: 0 <= k && k < idx ==> lidx(alpha, rSeq[k].L) >= 0
 //@   loop 3 invariant 0 <= idx && idx <= len(qSeq) && ref(index) == idxRef(alpha) && let == len(a) && let >= alphaLen(alpha) && len(la) == let * let && index != nil && (forall b int :: 0 <= b && b < 256 ==> index[b] == lidx(alpha, b)) && (forall k int :: 0 <= k && k < len(a) ==> len(a[k]) == let) && (forall k int :: 0 <= k && k < len(rSeq) ==> lidx(alpha, rSeq[k].L) >= 0) && forall k int :: 0 <= k && k < idx ==> lidx(alpha, qSeq[k].L) >= 0
@@ -469,7 +568,26 @@ package align
 //@   loop 6 invariant [dp-new] proving(cell(i, j-1)) && table[i*c+j-1] == fitOptQ(a, alpha, rSeq, qSeq, i, j-1)
 //@   loop 7 invariant [dp] forall i2 int, j2 int {fitOptQ(a, alpha, rSeq, qSeq, i2, j2)} :: 0 <= i2 && i2 < r && 0 <= j2 && j2 < c ==> proving(cell(i2, j2)) && table[i2*c+j2] == fitOptQ(a, alpha, rSeq, qSeq, i2, j2)
 //@   loop 8 invariant [dp] forall i2 int, j2 int {fitOptQ(a, alpha, rSeq, qSeq, i2, j2)} :: 0 <= i2 && i2 < r && 0 <= j2 && j2 < c ==> proving(cell(i2, j2)) && table[i2*c+j2] == fitOptQ(a, alpha, rSeq, qSeq, i2, j2)
-//@   loop 9 invariant [dp] forall i2 int, j2 int {fitOptQ(a, alpha, rSeq, qSeq, i2, j2)} :: 0 <= i2 && i2 < r && 0 <= j2 && j2 < c ==> proving(cell(i2, j2)) && table[i2*c+j2] == fitOptQ(a, alpha, rSeq, qSeq, i2, j2)
+//@   loop 9 invariant [dp] forall i2 int, j2 int {want(i2, j2)} :: 0 <= i2 && i2 < r && 0 <= j2 && j2 < c ==> proving(want(i2, j2)) && proving(defmark(i2)) && proving(cell(i2, j2)) && table[rowbase(i2, c)+j2] == fitOptQ(a, alpha, rSeq, qSeq, i2, j2)
+//@   loop 9 invariant [base] proving(defmark(i)) && rowbase(i, c) == i*c && proving(defmark(0)) && rowbase(0, c) == 0
+//@   loop 9 invariant [wants] want(i, j) && want(i-1, j-1) && want(i-1, j) && want(i, j-1) && want(0, j)
+//@   loop 9 isolate
+//@   loop 10 isolate
+//@   loop 9 invariant [seg] score == fitOptQ(a, alpha, rSeq, qSeq, maxI, maxJ) - fitOptQ(a, alpha, rSeq, qSeq, i, j)
+//@   loop 9 invariant [alloc] forall k int {aln[k]} :: 0 <= k && k < len(aln) ==> allocated(aln[k].(*featPair)) && aln[k].(*featPair) != nil
+//@   loop 10 invariant [alloc] forall k int {aln[k]} :: 0 <= k && k < len(aln) ==> aln[k].(*featPair) != nil
+//@   loop 9 invariant [scores] forall k int {aln[k]} :: 0 <= k && k < len(aln) ==> aln[k].(*featPair).score == fitOptQ(a, alpha, rSeq, qSeq, aln[k].(*featPair).a.end, aln[k].(*featPair).b.end) - fitOptQ(a, alpha, rSeq, qSeq, aln[k].(*featPair).a.start, aln[k].(*featPair).b.start)
+//@   loop 9 invariant [chain] forall k int, k2 int {succ(k, k2)} :: 0 <= k && k2 == k + 1 && k2 < len(aln) ==> proving(succ(k, k2)) && aln[k2].(*featPair).a.end == aln[k].(*featPair).a.start && aln[k2].(*featPair).b.end == aln[k].(*featPair).b.start
+//@   loop 9 invariant [tail] forall k int {aln[k]} :: 0 <= k && k == len(aln) - 1 ==> aln[k].(*featPair).a.start == maxI && aln[k].(*featPair).b.start == maxJ
+//@   loop 9 invariant [origin] proving(cell(0, 0)) && fitOptQ(a, alpha, rSeq, qSeq, 0, 0) == 0
+//@   loop 10 invariant [scores] forall k int {aln[k]} :: 0 <= k && k < len(aln) ==> aln[k].(*featPair).score == fitOptQ(a, alpha, rSeq, qSeq, aln[k].(*featPair).a.end, aln[k].(*featPair).b.end) - fitOptQ(a, alpha, rSeq, qSeq, aln[k].(*featPair).a.start, aln[k].(*featPair).b.start)
+//@   loop 10 invariant [chain-done] forall k int, k2 int {succ(k, k2)} :: 0 <= k && k2 == k + 1 && k2 < len(aln) && (k2 < i || k > j) ==> proving(succ(k, k2)) && aln[k].(*featPair).a.end == aln[k2].(*featPair).a.start && aln[k].(*featPair).b.end == aln[k2].(*featPair).b.start
+//@   loop 10 invariant [chain-todo] forall k int, k2 int {succ(k, k2)} :: i <= k && k2 == k + 1 && k2 <= j ==> proving(succ(k, k2)) && aln[k2].(*featPair).a.end == aln[k].(*featPair).a.start && aln[k2].(*featPair).b.end == aln[k].(*featPair).b.start
+//@   loop 10 invariant [chain-joint] i > 0 && i <= j ==> proving(succ(i-1, i)) && proving(succ(j, j+1)) && aln[i-1].(*featPair).a.end == aln[j].(*featPair).a.start && aln[i-1].(*featPair).b.end == aln[j].(*featPair).b.start && aln[i].(*featPair).a.end == aln[j+1].(*featPair).a.start && aln[i].(*featPair).b.end == aln[j+1].(*featPair).b.start
+//@   loop 10 invariant [chain-met] i > 0 && i == j + 1 ==> proving(succ(i-1, i)) && proving(succ(j, j+1)) && aln[j].(*featPair).a.end == aln[i].(*featPair).a.start && aln[j].(*featPair).b.end == aln[i].(*featPair).b.start
+//@   loop 9 invariant [here] cell(i, j)
+//@   loop 9 invariant [qend] (len(aln) == 0 ==> maxJ == c - 1) && (forall k int {aln[k]} :: k == 0 && k < len(aln) ==> aln[k].(*featPair).b.end == c - 1)
+//@   loop 10 invariant [ends] len(aln) > 0 && (i == 0 ==> aln[0].(*featPair).b.end == len(qSeq) && fitOptQ(a, alpha, rSeq, qSeq, aln[len(aln)-1].(*featPair).a.start, aln[len(aln)-1].(*featPair).b.start) == 0) && (i > 0 ==> aln[len(aln)-1].(*featPair).b.end == len(qSeq) && fitOptQ(a, alpha, rSeq, qSeq, aln[0].(*featPair).a.start, aln[0].(*featPair).b.start) == 0)
 
 //@ func (NWAffine).alignLetters
 //@   property C09
@@ -539,6 +657,7 @@ package align
 //@   property C09
 //@   maypanic
 //@   requires alpha != nil && allocated(idxRef(alpha))
+//@   ensures [pairs] result1 == nil ==> forall k int :: 0 <= k && k < len(result0) ==> wfPair(result0[k], len(rSeq), len(qSeq))
 //@   ensures [illegal-reference] len(qSeq) > 0 && (exists k int :: 0 <= k && k < len(rSeq) && lidx(alpha, rSeq[k]) < 0) ==> result1 != nil
 //@   ensures [illegal-query]     len(rSeq) > 0 && (exists k int :: 0 <= k && k < len(qSeq) && lidx(alpha, qSeq[k]) < 0) ==> result1 != nil
 //@   ensures [undersized]        len(a.Matrix) < alphaLen(alpha) ==> result1 != nil
@@ -565,6 +684,7 @@ package align
 //@   property C09
 //@   maypanic
 //@   requires alpha != nil && allocated(idxRef(alpha))
+//@   ensures [pairs] result1 == nil ==> forall k int :: 0 <= k && k < len(result0) ==> wfPair(result0[k], len(rSeq), len(qSeq))
 //@   ensures [illegal-reference] len(qSeq) > 0 && (exists k int :: 0 <= k && k < len(rSeq) && lidx(alpha, rSeq[k].L) < 0) ==> result1 != nil
 //@   ensures [illegal-query]     len(rSeq) > 0 && (exists k int :: 0 <= k && k < len(qSeq) && lidx(alpha, qSeq[k].L) < 0) ==> result1 != nil
 //@   ensures [undersized]        len(a.Matrix) < alphaLen(alpha) ==> result1 != nil
